@@ -31,7 +31,7 @@ ALSO_WATCHED = ['numdifftools.finite_difference:JacobianDifferenceFunctions.incr
                 'numdifftools.finite_difference:HessianDifferenceFunctions._central_even',
                 'numdifftools.finite_difference:HessdiagDifferenceFunctions._central_even']
 MIN_COUNTERS = dict(quick={'history_calls_compared': 1500, 'histories': 300, 'warm_cache_calls': 250,
-                           'cold_cache_calls': 100, 'shared_generator_calls': 100, 'mutate_restore_ops': 100,
+                           'cold_cache_calls': 100, 'shared_generator_calls': 100, 'nested_calls_on_a_shared_generator_compared': 20, 'mutate_restore_ops': 100,
                            'threaded_calls_compared': 1200, 'thread_rounds': 40,
                            'distinct_interleavings': 30, 'fresh_interpreter_references': 150},
                     thorough={'history_calls_compared': 80000, 'thread_rounds': 1500})
@@ -147,6 +147,17 @@ def _step_opts(rng):
     if rng.random() < 0.3:
         o['offset'] = int(rng.integers(-2, 3))
     return o
+
+
+def _nest_fun(x):
+    return np.exp(0.7 * x) + x ** 3
+
+
+def _nested(nd, gen_in, gen_out, n_in, n_out):
+    inner = nd.Derivative(_nest_fun, n=n_in, step=gen_in, method='central')
+    outer = nd.Derivative(lambda x: inner(x), n=n_out, step=gen_out, method='central', full_output=True)
+    v, info = outer(0.3)
+    return [float(v).hex(), float(info.error_estimate).hex(), float(info.final_step).hex()]
 
 
 def _sinc(z):
@@ -517,6 +528,28 @@ def run_case(case, ctx):
                                detail=dict(where='limit_on_a_generator_shared_with_derivative_objects', config=lcfg, extra=dict(ops=case['ops'])),
                                where='limit_on_a_generator_shared_with_derivative_objects')
                     return
+                # ... and nested use: the function differentiated by one object on the generator is itself a derivative object on the
+                # same generator instance (d/dx of d2/dx2 and the other way round; with the generator's default ratio the two use
+                # different ratios), so the inner object runs *during* the outer call.  Same steps, same result as with two private
+                # generators of the same options.
+                drop = ('step_ratio',) if (i + len(case['ops'])) % 2 == 0 else ()
+                nst = dict(pool[i]['step'], opts={k_: v_ for k_, v_ in pool[i]['step']['opts'].items() if k_ not in drop})
+                for (n_in, n_out) in ((2, 1), (1, 2)):
+                    gs = build_step(nd, nst)
+                    try:
+                        with np.errstate(all='ignore'):
+                            got = _nested(nd, gs, gs, n_in, n_out)
+                            exp = _nested(nd, build_step(nd, nst), build_step(nd, nst), n_in, n_out)
+                    except Exception as exc:
+                        ctx.reject('nested_use_raised', observed=repr(exc)[:200], detail=dict(step=nst, n_in=n_in, n_out=n_out))
+                        return
+                    ctx.count('shared_generator_calls')
+                    ctx.count('nested_calls_on_a_shared_generator_compared')
+                    if got != exp:
+                        ctx.reject('result_differs_between_shared_and_private_generators', observed=got, expected=exp,
+                                   detail=dict(where='nested_use_of_a_shared_generator', step=nst, n_inner=n_in, n_outer=n_out,
+                                               extra=dict(ops=case['ops'])), where='nested_use_of_a_shared_generator')
+                        return
             elif name == 'inplace_update':
                 # the caller keeps one array object, evaluates at it, updates it in place and evaluates again (an optimisation
                 # loop): the second result is that of the new point, whatever the object remembers of the first call
